@@ -81,17 +81,16 @@ func (m *MMap) Write(b []byte) (int, error) {
 
 func (m *MMap) Sync() error {
 	verifhook.IO("sync", m.file.Name(), 0)
+	// 当前不存在映射时, 所有数据已在解除映射前刷新
+	if m.activeMap == nil {
+		return nil
+	}
 	return m.activeMap.Flush()
 }
 
 func (m *MMap) Close() error {
 	verifhook.IO("close", m.file.Name(), m.virtualSize)
-	if err := m.activeMap.Flush(); err != nil {
-		return err
-	}
-	if err := m.activeMap.Unmap(); err != nil {
-		return err
-	}
+	// ResetFileSize 会刷新并解除映射
 	if err := m.ResetFileSize(); err != nil {
 		return err
 	}
@@ -104,6 +103,18 @@ func (m *MMap) Size() (int64, error) {
 
 func (m *MMap) ResetFileSize() error {
 	verifhook.IO("truncate", m.file.Name(), m.virtualSize)
+	// 文件截断后, 原映射超出文件末尾的部分不可再访问: 写入其中的数据不会进入文件,
+	// 超出末页时还会触发 SIGBUS. 因此截断前必须刷新并解除映射, 之后的读写会按需重新扩展并映射
+	if m.activeMap != nil {
+		if err := m.activeMap.Flush(); err != nil {
+			return err
+		}
+		if err := m.activeMap.Unmap(); err != nil {
+			return err
+		}
+		m.activeMap = nil
+	}
+	m.endOff = 0
 	return m.file.Truncate(m.virtualSize)
 }
 
